@@ -3,6 +3,9 @@ CHECKS = [
  dict(property_id="C05",
       text="Bounded SMT decision: sync.matching_time_indices / associate_trajectories are executed on symbolic strictly increasing stamp vectors, symbolic max_diff >= 0 and offset for every length pair in the bound; per feasible path z3 (linear real arithmetic, exact at ties and at |dt| == max_diff) shows every clause of the property unsat-negated. Holds for every real-valued input within the length bound; lengths beyond it and float rounding are outside.",
       note="trusted: z3; the numpy facade (validated against numpy by the conformance run); real-number semantics of floats; replay oracle is an independent exact-rational implementation of the clauses"),
+ dict(property_id="C12",
+      text="Bounded SMT decision: PE.get_statistic/get_all_statistics/get_result run on symbolic error vectors (also after unit-change / re-assignment histories) and every statistic is shown equal to its definition written independently in z3 (rank-based median, radicand-based rmse/std), plus the stated inequalities and rmse^2 = mean^2 + std^2; change_unit is run for all 100 ordered unit pairs (exact factor or refusal with values untouched); main_ape.ape and main_rpe.rpe run on symbolic stamped trajectories (frame deltas and symbolic metric deltas, consecutive and all-pairs, ratio relation with zero reference distances) and companion arrays, stored trajectories, title and label are shown to refer to the poses the values belong to.",
+      note="trusted: z3 (QF_NRA), facade, real-number semantics; rad/deg factor is the rational 180/pi_double; pair selection itself is owned by C10"),
 ]
 _PENDING = "check not built yet in this round (machinery under construction; see DESIGN.md section 10)"
 NOT_APPLICABLE = [dict(property_id="C%02d" % i, reason=_PENDING) for i in range(1, 21) if "C%02d" % i not in {c["property_id"] for c in CHECKS}]
